@@ -314,6 +314,7 @@ t_x509_minimal(const uint8_t *data, size_t len)
 {
 	br_x509_minimal_context *xc;
 	br_name_element ne[3];
+	char *sn;
 	char *nb[3] = { NULL, NULL, NULL };   /* exact-size heap blocks: an element of exactly the buffer length must be refused */
 	static const unsigned char oid_cn[] = { 0x03, 0x55, 0x04, 0x03 };
 	static const unsigned char oid_dns[] = { 0x00, 0x02 };
@@ -342,7 +343,9 @@ t_x509_minimal(const uint8_t *data, size_t len)
 		br_x509_minimal_set_name_elements(xc, ne, 3);
 	}
 	cst = data[1] >= 0xFD && data[1] != 0xFF ? 0xFFFFFF00u + data[1] : data[1];
-	xc->vtable->start_chain(&xc->vtable, (data[0] & 8) ? "localhost" : ((data[0] & 16) ? NULL : "www.example.com"));
+	/* the expected name is an exact-size heap block: the validator reads the string and nothing behind it */
+	sn = (data[0] & 8) ? vf_dup("localhost", 10) : ((data[0] & 16) ? NULL : vf_dup("www.example.com", 16));
+	xc->vtable->start_chain(&xc->vtable, sn);
 	/* certificates: 2-byte length prefix each (up to 4) */
 	while (off + 2 <= len && ncert < 4) {
 		size_t cl = ((size_t)data[off] << 8) | data[off + 1], co = 0;
@@ -385,7 +388,7 @@ t_x509_minimal(const uint8_t *data, size_t len)
 		}
 	}
 	free(nb[0]); free(nb[1]); free(nb[2]);
-	free(xc);
+	free(xc); free(sn);
 }
 
 /* ------------------------------------------------------------------ */
@@ -894,6 +897,38 @@ make_cert(unsigned char *o, size_t nbytes, size_t sbytes)
 	return der_wrap(o, 0x30, b, cl);
 }
 
+/* the same skeleton with a subjectAltName extension holding the given dNSNames */
+static size_t
+make_cert_san(unsigned char *o, const char *const *names, int nn)
+{
+	static unsigned char tbs[3000], b[4000], gn[1000], t1[1100], t2[1200];
+	static const unsigned char sigalg[] = { 0x30, 0x0D, 0x06, 0x09, 0x2A, 0x86, 0x48, 0x86, 0xF7, 0x0D, 0x01, 0x01, 0x0B, 0x05, 0x00 };
+	static const unsigned char name[] = { 0x30, 0x0F, 0x31, 0x0D, 0x30, 0x0B, 0x06, 0x03, 0x55, 0x04, 0x03, 0x0C, 0x04, 't', 'e', 's', 't' };
+	static const unsigned char val[] = { 0x30, 0x1E, 0x17, 0x0D, '0','0','0','1','0','1','0','0','0','0','0','0','Z',
+		0x17, 0x0D, '4','9','1','2','3','1','2','3','5','9','5','9','Z' };
+	static const unsigned char sig[65] = { 0, 0x77 };
+	size_t l = 0, tl, cl, gl = 0, x;
+	int i;
+	for (i = 0; i < nn; i ++) gl += der_wrap(gn + gl, 0x82, (const unsigned char *)names[i], strlen(names[i]));
+	x = der_wrap(t1, 0x30, gn, gl);                 /* GeneralNames */
+	x = der_wrap(t2 + 5, 0x04, t1, x);              /* extnValue */
+	memcpy(t2, "\x06\x03\x55\x1D\x11", 5);
+	x = der_wrap(t1, 0x30, t2, x + 5);              /* Extension */
+	x = der_wrap(t2, 0x30, t1, x);                  /* Extensions */
+	l += der_wrap(tbs + l, 0xA0, (const unsigned char *)"\x02\x01\x02", 3);
+	l += der_wrap(tbs + l, 0x02, (const unsigned char *)"\x01", 1);
+	memcpy(tbs + l, sigalg, sizeof sigalg); l += sizeof sigalg;
+	memcpy(tbs + l, name, sizeof name); l += sizeof name;
+	memcpy(tbs + l, val, sizeof val); l += sizeof val;
+	memcpy(tbs + l, name, sizeof name); l += sizeof name;
+	l += make_rsa_spki(tbs + l, 128);
+	l += der_wrap(tbs + l, 0xA3, t2, x);
+	tl = der_wrap(b, 0x30, tbs, l);
+	memcpy(b + tl, sigalg, sizeof sigalg); cl = tl + sizeof sigalg;
+	cl += der_wrap(b + cl, 0x03, sig, sizeof sig);
+	return der_wrap(o, 0x30, b, cl);
+}
+
 static void
 gen_handshake_seeds(int victim_role)
 {
@@ -1117,6 +1152,22 @@ gen_corpus(void)
 			emit(gbuf, l + 4);
 		}
 		if (d) closedir(d);
+		{
+			/* subjectAltName lists: wildcards, short names after longer ones, for the dotted and the dotless expected name */
+			static const char *const san[][3] = {
+				{ "*.example.com", "*", NULL }, { "*.localhost", "*", "localhost" }, { "*", "*.", "*.com" },
+				{ "l.localhost", "*", NULL }, { "www.example.com", "x", "*.example.com" }, { "*.*.com", "w*.example.com", "*" },
+			};
+			size_t q;
+			for (q = 0; q < sizeof san / sizeof san[0]; q ++) {
+				int fl;
+				for (fl = 0; fl < 2; fl ++) {
+					l = make_cert_san(gbuf + 4, san[q], san[q][2] ? 3 : 2);
+					gbuf[0] = fl ? 0x08 : 0x02; gbuf[1] = 0xFF; gbuf[2] = (unsigned char)(l >> 8); gbuf[3] = (unsigned char)l;
+					emit(gbuf, l + 4);
+				}
+			}
+		}
 		for (i = 0; i < sizeof sizes / sizeof sizes[0]; i ++) {
 			if (sizes[i] > 1100) continue;
 			l = make_cert(gbuf + 4, sizes[i], sizes[(i * 7) % 12] % 600 + 1);
